@@ -432,15 +432,27 @@ class SInt:
 
 
 def concretize(x, limit=64):
-    """fork-enumerate the feasible values of a symbolic int (small domains only)"""
+    """fork-enumerate the feasible values of a symbolic int in increasing order (small domains only).  The minimum is
+    found by descent from an arbitrary model value, so the sequence of branch conditions does not depend on which
+    model the solver happens to return (replays must meet identical conditions)."""
     if not isinstance(x, SInt):
         return x
+    lo_bound = None
     for _ in range(limit):
-        if not CUR.check():
+        c = CUR
+        extra = [] if lo_bound is None else [x.z > lo_bound]
+        if not c.check(*extra):
             raise Abort()
-        v = CUR.model.eval(x.z, model_completion=True).as_long()
+        v = c.model.eval(x.z, model_completion=True).as_long()
+        for _ in range(200):
+            if not c.check(x.z < v, *extra):
+                break
+            v = c.model.eval(x.z, model_completion=True).as_long()
+        else:
+            raise Unsupported("concretize: unbounded below")
         if branch(x.z == v):
             return v
+        lo_bound = v
     raise Unsupported("concretize: domain larger than %d" % limit)
 
 
@@ -512,11 +524,12 @@ class SEnum:
 class PathOutcome:
     """what a harness returns for one completed path"""
 
-    def __init__(self, prop, witness=None, label=None, info=None):
+    def __init__(self, prop, witness=None, label=None, info=None, known=None):
         self.prop = prop          # z3 Bool / bool: obligation that must hold on this path
         self.witness = witness or {}   # name -> term: evaluated under a counter-model / witness model
         self.label = label        # path class label (for evidence)
         self.info = info or {}    # concrete extras forwarded to the replay builder
+        self.known = known or []  # [(finding id, z3 cond)]: where a listed known finding would show on this path
 
 
 class Result:
@@ -533,6 +546,7 @@ class Result:
         self.samples = []
         self.capped = False
         self.forks = {}
+        self.known_hits = []
 
 
 def _eval_wit(model, wit):
@@ -602,6 +616,13 @@ def explore(fn, max_paths=100000, deadline=None, prefixes=None, want_samples=3, 
                                      "witness": _inputs_witness()})
         except RecursionError:
             res.inconclusive.append({"why": "recursion limit", "depth": len(CUR.decisions), "witness": _inputs_witness()})
+        except Exception as e:  # noqa: an exception of the analysed code escaped the harness: a failed obligation
+            ins = dict(CUR.notes.get("inputs") or {})
+            clk = CUR.notes.get("clock")
+            if clk is not None:
+                for f in ("year", "month", "day", "hour", "minute", "second", "microsecond"):
+                    ins["clock_" + f] = getattr(clk, f)
+            out = PathOutcome(False, ins, "raised:%s" % type(e).__name__, {"exception": "%s: %s" % (type(e).__name__, str(e)[:200])})
         stack.extend(CUR.pending)
         res.paths += 1
         if out is not None:
@@ -620,6 +641,9 @@ def explore(fn, max_paths=100000, deadline=None, prefixes=None, want_samples=3, 
                     if CUR.check(z3.Not(prop)):
                         m = CUR.model
                         res.violations.append({"witness": _eval_wit(m, out.witness), "label": lab, "info": out.info})
+                    for fid, kc in out.known:
+                        if sum(1 for h in res.known_hits if h["id"] == fid) < 3 and CUR.check(_zb(kc)):
+                            res.known_hits.append({"id": fid, "witness": _eval_wit(CUR.model, out.witness)})
             except Unsupported as e:
                 res.inconclusive.append({"why": "obligation: %s" % (str(e)[:300],), "depth": len(CUR.decisions)})
         res.checks += CUR.nchecks
